@@ -296,7 +296,42 @@ Proof.
     + pose proof (depth_fields_in (k, ov) om Hin) as Hle. cbn [snd] in *. lia.
 Qed.
 
-(* the relation determines every entry, level by level: two results agree on every path (see get_segs below) *)
+(* The relation determines its result up to the order of keys: [jeq] is equality of trees whose objects are
+   read as finite maps. *)
+Inductive jeq : json -> json -> Prop :=
+| jeq_refl j : jeq j j
+| jeq_obj m m' :
+    (forall k, lookup k m = None <-> lookup k m' = None) ->
+    (forall k a b, lookup k m = Some a -> lookup k m' = Some b -> jeq a b) ->
+    jeq (JObj m) (JObj m').
+
+Lemma Merged_det o : forall t r r', Merged t o r -> Merged t o r' -> jeq r r'.
+Proof.
+  induction o as [| | | | l _ | om IH] using json_ind'; intros t r r' H1 H2;
+    try (inversion H1; subst; inversion H2; subst; apply jeq_refl).
+  inversion H1 as [? ? Hn1 | tm1 om1 rm1 Hnd1 Hk1 Hov1]; subst.
+  - inversion H2 as [? ? Hn2 | tm2 om2 rm2 Hnd2 Hk2 Hov2]; subst; [apply jeq_refl|].
+    exfalso. apply Hn1. eexists _, _. split; reflexivity.
+  - inversion H2 as [? ? Hn2 | tm2 om2 rm2 Hnd2 Hk2 Hov2]; subst.
+    + exfalso. apply Hn2. eexists _, _. split; reflexivity.
+    + apply jeq_obj.
+      * intro k. destruct (lookup k om) as [ov|] eqn:E.
+        -- destruct (Hov1 k ov E) as (r1 & L1 & _). destruct (Hov2 k ov E) as (r2 & L2 & _).
+           rewrite L1, L2. split; discriminate.
+        -- rewrite (Hk1 k E), (Hk2 k E). split; intro; assumption.
+      * intros k a b La Lb. destruct (lookup k om) as [ov|] eqn:E.
+        -- destruct (Hov1 k ov E) as (r1 & L1 & M1). destruct (Hov2 k ov E) as (r2 & L2 & M2).
+           rewrite L1 in La. rewrite L2 in Lb. inversion La; inversion Lb; subst.
+           rewrite Forall_forall in IH. exact (IH (k, ov) (lookup_in _ _ _ E) _ _ _ M1 M2).
+        -- rewrite (Hk1 k E) in La. rewrite (Hk2 k E) in Lb. rewrite La in Lb. inversion Lb. apply jeq_refl.
+Qed.
+
+(* hence: below the depth limit the coded merge is the declarative merge (any result of the relation is the coded one
+   up to key order) *)
+Lemma merge_is_Merged maxd o d t r :
+  wf t -> wf o -> d + depth o <= maxd -> Merged t o r -> jeq r (merge maxd d t o).
+Proof. intros Ht Ho Hd Hr. eapply Merged_det; [exact Hr|]. apply merge_spec; assumption. Qed.
+
 
 (* ------------------------------------------------------------------ split('.') *)
 Lemma split_dot_acc_nonempty cur s : split_dot_acc cur s <> [].
@@ -346,11 +381,21 @@ Proof.
 Qed.
 
 (* ------------------------------------------------------------------ set / get *)
+Definition child (t : json) (s : key) : json := match lookup s (as_fields t) with Some c => c | None => JObj [] end.
+
+Lemma set_segs_last t s v : set_segs t [s] v = Some (JObj (insert s v (as_fields t))).
+Proof. reflexivity. Qed.
+
+Lemma set_segs_cons2 t s s2 r v :
+  set_segs t (s :: s2 :: r) v =
+  match set_segs (child t s) (s2 :: r) v with Some c' => Some (JObj (insert s c' (as_fields t))) | None => None end.
+Proof. reflexivity. Qed.
+
 Lemma set_segs_some t segs v : segs <> [] -> exists t', set_segs t segs v = Some t'.
 Proof.
   revert t. induction segs as [|s r IH]; intros t Hne; [congruence|].
-  destruct r as [|s2 r]; cbn [set_segs]; [eexists; reflexivity|].
-  destruct (IH (match lookup s (as_fields t) with Some c => c | None => JObj [] end)) as [c' Hc]; [discriminate|].
+  destruct r as [|s2 r]; [eexists; apply set_segs_last|].
+  rewrite set_segs_cons2. destruct (IH (child t s)) as [c' Hc]; [discriminate|].
   rewrite Hc. eexists. reflexivity.
 Qed.
 
@@ -358,10 +403,9 @@ Lemma get_set_segs segs : forall t v t', set_segs t segs v = Some t' -> get_segs
 Proof.
   induction segs as [|s r IH]; intros t v t' H; [discriminate|].
   destruct r as [|s2 r].
-  - cbn in H. inversion H; subst. cbn. rewrite lookup_insert_same. reflexivity.
-  - cbn [set_segs] in H.
-    destruct (set_segs (match lookup s (as_fields t) with Some c => c | None => JObj [] end) (s2 :: r) v) as [c'|] eqn:E;
-      [|discriminate].
+  - rewrite set_segs_last in H. inversion H; subst. cbn. rewrite lookup_insert_same. reflexivity.
+  - rewrite set_segs_cons2 in H.
+    destruct (set_segs (child t s) (s2 :: r) v) as [c'|] eqn:E; [|discriminate].
     inversion H; subst. cbn [get_segs]. rewrite lookup_insert_same. eapply IH. exact E.
 Qed.
 
@@ -400,17 +444,16 @@ Lemma set_segs_frame c : forall t s1 s2 p' q' v t',
 Proof.
   induction c as [|s c IH]; intros t s1 s2 p' q' v t' Hne H.
   - cbn [app] in *. rewrite (get_segs_as_fields t). destruct p' as [|s3 p'].
-    + cbn in H. inversion H; subst. cbn [get_segs]. rewrite lookup_insert_other by congruence. reflexivity.
-    + cbn [set_segs] in H.
-      destruct (set_segs (match lookup s1 (as_fields t) with Some c => c | None => JObj [] end) (s3 :: p') v); [|discriminate].
+    + rewrite set_segs_last in H. inversion H; subst. cbn [get_segs]. rewrite lookup_insert_other by congruence. reflexivity.
+    + rewrite set_segs_cons2 in H.
+      destruct (set_segs (child t s1) (s3 :: p') v); [|discriminate].
       inversion H; subst. cbn [get_segs]. rewrite lookup_insert_other by congruence. reflexivity.
   - cbn [app] in *. rewrite (get_segs_as_fields t).
     assert (Hc : exists x y, c ++ s1 :: p' = x :: y) by (destruct c; eexists _, _; reflexivity).
-    destruct Hc as (x & y & Hc). cbn [set_segs] in H. rewrite Hc in H. rewrite <- Hc in H.
-    destruct (set_segs (match lookup s (as_fields t) with Some c0 => c0 | None => JObj [] end) (c ++ s1 :: p') v) as [c'|] eqn:E;
-      [|discriminate].
+    destruct Hc as (x & y & Hc). rewrite Hc in H. rewrite set_segs_cons2 in H. rewrite <- Hc in H.
+    destruct (set_segs (child t s) (c ++ s1 :: p') v) as [c'|] eqn:E; [|discriminate].
     inversion H; subst. cbn [get_segs]. rewrite lookup_insert_same.
-    rewrite (IH _ _ _ _ _ _ _ Hne E).
+    rewrite (IH _ _ _ _ _ _ _ Hne E). unfold child.
     destruct (lookup s (as_fields t)) eqn:El; [reflexivity|].
     (* the entry did not exist: reading through a fresh empty object finds nothing *)
     destruct c; cbn; reflexivity.
@@ -426,15 +469,14 @@ Proof.
   assert (Hm : wff (as_fields t)).
   { destruct t; cbn; try (split; constructor). apply wf_obj_inv. exact Ht. }
   destruct r as [|s2 r].
-  - cbn in H. inversion H; subst. destruct (wff_insert s v _ Hm Hv). constructor; assumption.
-  - cbn [set_segs] in H.
-    destruct (set_segs (match lookup s (as_fields t) with Some c => c | None => JObj [] end) (s2 :: r) v) as [c'|] eqn:E;
-      [|discriminate].
+  - rewrite set_segs_last in H. inversion H; subst. destruct (wff_insert s v _ Hm Hv). constructor; assumption.
+  - rewrite set_segs_cons2 in H.
+    destruct (set_segs (child t s) (s2 :: r) v) as [c'|] eqn:E; [|discriminate].
     inversion H; subst.
-    assert (wf c').
-    { eapply IH; [|exact Hv|exact E]. destruct (lookup s (as_fields t)) eqn:El; [eapply wff_lookup; eassumption|].
+    assert (Hc : wf c').
+    { eapply IH; [|exact Hv|exact E]. unfold child. destruct (lookup s (as_fields t)) eqn:El; [eapply wff_lookup; eassumption|].
       constructor; constructor. }
-    destruct (wff_insert s c' _ Hm H0). constructor; assumption.
+    destruct (wff_insert s c' _ Hm Hc). constructor; assumption.
 Qed.
 
 (* ------------------------------------------------------------------ merge and paths *)
@@ -496,6 +538,26 @@ Proof.
     + apply IHr; assumption.
 Qed.
 
+(* ------------------------------------------------------------------ statements used by Properties/C25.v *)
+Lemma merge_entry maxd d tm om k : NoDup (map fst om) -> d < maxd ->
+  get_segs (merge maxd d (JObj tm) (JObj om)) [k] =
+  match lookup k om with
+  | None => lookup k tm
+  | Some ov => Some (merge maxd (S d) (get_or_null k tm) ov)
+  end.
+Proof.
+  intros Hnd Hd. rewrite merge_obj_obj. assert (Nat.ltb d maxd = true) as -> by (apply Nat.ltb_lt; exact Hd).
+  cbn [get_segs]. rewrite merge_fields_lookup by exact Hnd. destruct (lookup k om); [|destruct (lookup k tm)]; reflexivity.
+Qed.
+
+Lemma get_set_segs_ex t segs v : segs <> [] -> exists t', set_segs t segs v = Some t' /\ get_segs t' segs = Some v.
+Proof.
+  intro Hne. destruct (set_segs_some t segs v Hne) as [t' H]. exists t'. split; [exact H|]. eapply get_set_segs. exact H.
+Qed.
+
+Lemma get_set_path t path v : exists t', set_at_path t path v = Some t' /\ get_at_path t' path = Some v.
+Proof. apply get_set_segs_ex. apply split_dot_nonempty. Qed.
+
 (* ------------------------------------------------------------------ the Settings methods *)
 Section UpdateProofs.
   Variable settings : Type.
@@ -525,9 +587,9 @@ Section UpdateProofs.
                         typed (merge_json maxd cur overlay) = Some s' /\ validate s' = true.
   Proof.
     unfold SettingsTree.update_from_str, SettingsTree.with_string.
-    destruct (parse f text) as [o|]; [|discriminate]. destruct (to_value s) as [c|]; [|discriminate].
-    destruct (typed (merge_json maxd c o)) as [x|]; [|discriminate]. destruct (validate x) eqn:E; [|discriminate].
-    intro H. inversion H; subst. eexists _, _. repeat split; try reflexivity; assumption.
+    destruct (parse f text) as [o|] eqn:E1; [|discriminate]. destruct (to_value s) as [c|] eqn:E2; [|discriminate].
+    destruct (typed (merge_json maxd c o)) as [x|] eqn:E3; [|discriminate]. destruct (validate x) eqn:E4; [|discriminate].
+    intro H. inversion H; subst. exists o, c. repeat split; try reflexivity; assumption.
   Qed.
 
   (* the result is never an invalid settings value *)
